@@ -1604,8 +1604,12 @@ func (s *BgpServer) propagateUpdateToNeighbors(rib *table.TableManager, source *
 							for _, p := range toDelete {
 								// if the path is filtered, there is no need to send the withdrawal
 								p := s.filterpath(targetPeer, p, nil)
-								// the path was never advertized to the peer
-								if p == nil || targetPeer.unsetPathSendMaxFiltered(p) {
+								// the path was never advertized to the peer: it was held back by
+								// send-max, or it had left the table before the peer's initial
+								// table transfer (or route refresh) read the destination while
+								// this fan-out was still waiting for that pass to finish. Such a
+								// withdrawal frees no slot for a held-back path.
+								if p == nil || targetPeer.unsetPathSendMaxFiltered(p) || !targetPeer.hasPathAlreadyBeenSent(p) {
 									continue
 								}
 								toActuallyDelete = append(toActuallyDelete, p)
